@@ -337,6 +337,12 @@ def rule_tokens(ctx, rule):
             ctx.ob(rule, "token-vs-element|%s|%s" % (r1, r2), "a token can be told from an element by its variant", ok, m.adt, "%s vs %s" % (symex.sym_str(t1), symex.sym_str(t2)))
     for rid in m.consumers:
         f = m.inl[rid]
+        # a receive call never returns without having looked at the queue: a token waiting there is consumed by exactly the call that finds
+        # it, so n tokens release n calls (a shortcut that answers "nothing" from a counter leaves the token for a later, unrelated call)
+        pops_ = set(deque_calls(f, "pop_front"))
+        blind = [_ret_str(p) for p in _paths(f) if p.end[0] == "return" and not any(e[1] == "call" and e[0] in pops_ for e in p.events)]
+        ctx.ob(rule, "%s|looks-before-leaving" % rid, "every return of a receive call is preceded by a look at the head of the queue", not blind, "%s:%d" % (f.file, f.line),
+               None if not blind else "returns %s without examining the queue" % blind[:2])
         for i, pb in enumerate(deque_calls(f, "pop_front")):
             for prod, shape in toks:
                 n += 1
